@@ -27,14 +27,22 @@
       * `C05_threeUnsew3_effect`: the 3-unlink, the face split from `min(lface, rface)`, then for
         each pair of the zipped walks the edge split and the vertex split(s) from the `min` of the
         two ids (`UnsewnPairs`).
-  (c) `C05_threeSew3_refuses_bad_orientation`-style facts are left to C02 (`C02_refusal_sew`) and to
-      the correspondence.
+  (c) the proviso of the property on a chain of merges (`MergedPairs.spec`,
+      `C05_threeSew3_vertices`): when no identifier takes part in two kept pairs, every kept pair
+      `(a, b)` ends with `merge*` of the two values held BEFORE the call at `min a b` and nothing
+      at `max a b`; identifiers in no pair keep their value.  Refusals of non-mirrorable faces are
+      C02 (`C02_refusal_sew`).
 
   NOT PROVED here:
   * the identification of the ids with cells ("the new cell is the union of the two old cells and
     `min` of the two ids is its id"; for 3-sews: "the collected pairs are exactly the pairs of
     cells united by the 3-link on closed faces") — evaluated by the oracle of tools/props/c05.py on
-    the real implementation (cells recomputed independently from the β arrays);
+    the real implementation (cells recomputed independently from the β arrays).  For 1-sews /
+    1-unsews of a dart of a 3-SEWN face it is in fact FALSE (known finding D13, reproduced on the
+    implementation): `vertex_id_transac` is run on the map in which that face is open, where its
+    five images are not closed under inverse, so the ids `C05_oneSew3_effect` /
+    `C05_oneUnsew3_effect` speak about need not be the smallest darts of the vertex cells and the
+    value of a vertex can be parked under a stale id;
   * that chains of merges touching the SAME cell twice (ring closing; the property's proviso)
     compose to the expected value — the chain itself (`MergedPairs`) is exact, its interpretation
     is not attempted;
